@@ -74,7 +74,7 @@ fn caller(id: usize, ops: usize, seed: u64, dir: &str, log: &Mutex<Vec<String>>,
     let problem = |s: String| { if std::env::var_os("VERBOSE_PANICS").is_some() { eprintln!("caller {id}: {s}"); } log.lock().unwrap().push(format!("caller {id}: {s}")) };
     for k in 0..ops {
         let tag = ((id as u64) << 32) | k as u64;
-        match if rng.chance(1, 16) { 8 } else if rng.chance(1, 12) { 9 } else if rng.chance(1, 10) { 10 } else { rng.below(8) } {
+        match if rng.chance(1, 16) { 8 } else if rng.chance(1, 12) { 9 } else if rng.chance(1, 10) { 10 } else if rng.chance(1, 3) { 11 + rng.below(4) } else { rng.below(8) } {
             0 | 1 => {
                 // unique block written at a unique offset, read back
                 let off = (k * 64) as libc::off_t;
@@ -269,6 +269,97 @@ fn caller(id: usize, ops: usize, seed: u64, dir: &str, log: &Mutex<Vec<String>>,
                         unsafe { libc::recv(sv[1], junk.as_mut_ptr().cast(), 8, libc::MSG_DONTWAIT) };
                     }
                 }
+            }
+            11 => {
+                // vectored positional file I/O: two unique pieces written at a unique offset, read back into two other buffers
+                let off = (4096 + k * 64) as libc::off_t;
+                let a: Vec<u8> = (0..20).map(|i| (tag.wrapping_mul(17).wrapping_add(i) % 249) as u8).collect();
+                let b: Vec<u8> = (0..28).map(|i| (tag.wrapping_mul(29).wrapping_add(i) % 247) as u8).collect();
+                let wv = [libc::iovec { iov_base: a.as_ptr() as *mut _, iov_len: 20 }, libc::iovec { iov_base: b.as_ptr() as *mut _, iov_len: 28 }];
+                let w = oc::pwritev(None, fd, wv.as_ptr(), 2, off);
+                let (mut ra, mut rb) = (vec![0u8; 20], vec![0u8; 28]);
+                let rv = [libc::iovec { iov_base: ra.as_mut_ptr().cast(), iov_len: 20 }, libc::iovec { iov_base: rb.as_mut_ptr().cast(), iov_len: 28 }];
+                let r = oc::preadv(None, fd, rv.as_ptr(), 2, off);
+                if w != 48 || r != 48 || ra != a || rb != b {
+                    problem(format!("op {k} pwritev/preadv returned {w}/{r} errno {}, data {}", errno(), if ra == a && rb == b { "ok" } else { "belongs to somebody else / wrong" }));
+                }
+            }
+            12 => {
+                // stream I/O without offsets on a socket pair of its own: write, writev, read, readv, half-close, read at end of stream,
+                // fsync of the data file, close, close of a descriptor number that was never open
+                // (regular files are not used here: the io_uring path reads and writes them at offset 0 whatever the file position is -
+                // a difference from read(2)/write(2) that is outside this property)
+                let mut q = [0; 2];
+                assert_eq!(0, unsafe { libc::socketpair(libc::AF_UNIX, libc::SOCK_STREAM, 0, q.as_mut_ptr()) });
+                let a: Vec<u8> = (0..24).map(|i| (tag.wrapping_mul(13).wrapping_add(i) % 241) as u8).collect();
+                let b: Vec<u8> = (0..16).map(|i| (tag.wrapping_mul(7).wrapping_add(i) % 239) as u8).collect();
+                let w1 = oc::write(None, q[0], a.as_ptr().cast(), 24);
+                let wv = [libc::iovec { iov_base: b.as_ptr() as *mut _, iov_len: 16 }];
+                let w2 = oc::writev(None, q[0], wv.as_ptr(), 1);
+                let (mut ra, mut rb) = (vec![0u8; 24], vec![0u8; 16]);
+                let r1 = oc::read(None, q[1], ra.as_mut_ptr().cast(), 24);
+                let rv = [libc::iovec { iov_base: rb.as_mut_ptr().cast(), iov_len: 16 }];
+                let r2 = oc::readv(None, q[1], rv.as_ptr(), 1);
+                let sh = oc::shutdown(None, q[0], libc::SHUT_WR);
+                let mut z = [0u8; 4];
+                let r3 = oc::read(None, q[1], z.as_mut_ptr().cast(), 4);
+                let f = oc::fsync(None, fd);
+                if w1 != 24 || w2 != 16 || r1 != 24 || r2 != 16 || sh != 0 || r3 != 0 || f != 0 || ra != a || rb != b {
+                    problem(format!("op {k} write/writev/read/readv/shutdown/read-at-end/fsync returned {w1}/{w2}/{r1}/{r2}/{sh}/{r3}/{f} errno {}, data {}", errno(), if ra == a && rb == b { "ok" } else { "belongs to somebody else / wrong" }));
+                }
+                let c0 = oc::close(None, q[0]);
+                let c1 = oc::close(None, q[1]);
+                oc::set_errno(0);
+                let c2 = oc::close(None, 1_000_000 + id as libc::c_int);
+                let e2 = errno();
+                if c0 != 0 || c1 != 0 || c2 != -1 || e2 != libc::EBADF {
+                    problem(format!("op {k} close returned {c0}/{c1}, closing a descriptor number that was never open returned {c2} errno {e2} (expected 0/0, then -1/EBADF)"));
+                }
+            }
+            13 => {
+                // renameat of an own file (then the new name exists and the old one does not), renameat of a missing file -> ENOENT
+                let from = format!("{dir}/r{id}-{k}\0");
+                let to = format!("{dir}/t{id}-{k}\0");
+                unsafe { libc::close(libc::open(from.as_ptr().cast(), libc::O_RDWR | libc::O_CREAT, 0o600)) };
+                let r = oc::renameat(None, libc::AT_FDCWD, from.as_ptr().cast(), libc::AT_FDCWD, to.as_ptr().cast());
+                let moved = unsafe { libc::access(to.as_ptr().cast(), libc::F_OK) == 0 && libc::access(from.as_ptr().cast(), libc::F_OK) != 0 };
+                oc::set_errno(0);
+                let r2 = oc::renameat(None, libc::AT_FDCWD, from.as_ptr().cast(), libc::AT_FDCWD, to.as_ptr().cast());
+                let e2 = errno();
+                if r != 0 || !moved || r2 != -1 || e2 != libc::ENOENT {
+                    problem(format!("op {k} renameat returned {r} (file moved: {moved}); renaming the now missing source returned {r2} errno {e2} (expected 0, then -1/ENOENT)"));
+                }
+            }
+            14 => {
+                // a connection of its own through io_uring: socket, connect to the caller's listener, accept, send/recv a tag, half-close, EOF
+                let lpath = format!("{dir}/l{id}-{k}");
+                let l = unsafe { libc::socket(libc::AF_UNIX, libc::SOCK_STREAM, 0) };
+                let mut addr: libc::sockaddr_un = unsafe { std::mem::zeroed() };
+                addr.sun_family = libc::AF_UNIX as libc::sa_family_t;
+                for (i, b) in lpath.bytes().enumerate() {
+                    addr.sun_path[i] = b as libc::c_char;
+                }
+                let alen = std::mem::size_of::<libc::sockaddr_un>() as libc::socklen_t;
+                unsafe {
+                    assert_eq!(0, libc::bind(l, (&raw const addr).cast(), alen));
+                    assert_eq!(0, libc::listen(l, 4));
+                }
+                let c = oc::socket(None, libc::AF_UNIX, libc::SOCK_STREAM, 0);
+                let cr = oc::connect(None, c, (&raw const addr).cast(), alen);
+                let a = if k % 2 == 0 { oc::accept(None, l, std::ptr::null_mut(), std::ptr::null_mut()) } else { oc::accept4(None, l, std::ptr::null_mut(), std::ptr::null_mut(), libc::SOCK_CLOEXEC) };
+                let msg = tag.to_le_bytes();
+                let s = oc::send(None, c, msg.as_ptr().cast(), 8, 0);
+                let mut back = [0u8; 8];
+                let r = oc::recv(None, a, back.as_mut_ptr().cast(), 8, 0);
+                let sh = oc::shutdown(None, c, libc::SHUT_WR);
+                let mut z = [0u8; 4];
+                let eof = oc::recv(None, a, z.as_mut_ptr().cast(), 4, 0);
+                if c < 0 || cr != 0 || a < 0 || a == c || s != 8 || r != 8 || back != msg || sh != 0 || eof != 0 {
+                    problem(format!("op {k} socket/connect/accept/send/recv/shutdown/recv-at-EOF returned {c}/{cr}/{a}/{s}/{r}/{sh}/{eof} errno {}, payload {back:x?} expected {msg:x?}", errno()));
+                }
+                let _ = oc::close(None, c);
+                let _ = oc::close(None, a);
+                unsafe { libc::close(l) };
             }
             6 => {
                 // negative completion compared with what the native call answers: mkdirat below /sys
